@@ -11,7 +11,7 @@ from pathlib import Path as FsPath
 
 import z3
 
-from ..common import Report, parse_args, pmap
+from ..common import REPO, Report, parse_args, pmap
 from ..sh import shx
 from ..tv.translate import TEMPLATE_DIR, scratch_root
 
@@ -20,7 +20,7 @@ EXTERNAL = ("cmake", "make", "chmod", "sudo", "scram", "mkedanlzr", "rm", "cp", 
 
 
 def script_text(backend):
-    return open(f"/repo/func_adl_xAOD/template/{SCRIPTS[backend]}/runner.sh").read()
+    return open(f"{REPO}/func_adl_xAOD/template/{SCRIPTS[backend]}/runner.sh").read()
 
 
 def token_vectors(maxlen):
@@ -227,7 +227,7 @@ def replay_path(e, p, history_kinds, backend, root: FsPath):
         shutil.rmtree(root)
     for d in ("pkg", "work", "plat", "ext", "stubs", "state"):
         (root / d).mkdir(parents=True)
-    tdir = FsPath(f"/repo/func_adl_xAOD/template/{SCRIPTS[backend]}")
+    tdir = FsPath(f"{REPO}/func_adl_xAOD/template/{SCRIPTS[backend]}")
     for f in tdir.iterdir():
         if f.is_file():
             shutil.copy(f, root / "pkg" / f.name)
